@@ -2245,6 +2245,10 @@ GRcreate(int32 grid, const char *name, int32 ncomp, int32 nt, int32 il, int32 di
         dimsizes == NULL || dimsizes[0] <= 0 || dimsizes[1] <= 0)
         HGOTO_ERROR(DFE_ARGS, FAIL);
 
+    /* the number type must be one the library knows (its size is used for every pixel computation) */
+    if (DFKNTsize(nt) == FAIL)
+        HGOTO_ERROR(DFE_BADNUMTYPE, FAIL);
+
     /* locate GR's object in hash table */
     if (NULL == (gr_ptr = (gr_info_t *)HAatom_object(grid)))
         HGOTO_ERROR(DFE_GRNOTFOUND, FAIL);
